@@ -96,21 +96,31 @@ var uuidRe = regexp.MustCompile(`^[0-9a-fA-F]{8}-[0-9a-fA-F]{4}-[0-9a-fA-F]{4}-[
 // opNamer turns (method, path) into a stable operation name: identifiers in the path become {id}.
 func opNamer(subjects func() []string) func(method, path string) string {
 	return func(method, path string) string {
+		if rest, ok := strings.CutPrefix(path, "/internal/auth/v2/dpop/"); ok && rest != "validate" {
+			return method + " /internal/auth/v2/dpop/{kid}" // the kid may contain anything, slashes included
+		}
 		segs := strings.Split(path, "/")
 		known := subjects()
 		for i, s := range segs {
+			prev, prev2 := "", ""
+			if i > 0 {
+				prev = segs[i-1]
+			}
+			if i > 1 {
+				prev2 = segs[i-2]
+			}
 			switch {
 			case s == "":
-			case uuidRe.MatchString(s), strings.ContainsAny(s, ":%#.=") && !strings.HasSuffix(s, ".json") && !strings.HasSuffix(s, ".jwt") && s != ".well-known", len(s) > 24:
+			case uuidRe.MatchString(s), len(s) > 40,
+				strings.ContainsAny(s, ":%#=") || strings.Contains(s, ".") && !strings.HasSuffix(s, ".json") && !strings.HasSuffix(s, ".jwt") && s != ".well-known":
 				segs[i] = "{id}"
-			default:
+			case prev == "request.jwt", prev == "statuslist", prev == "accesstoken" && s != "introspect" && s != "introspect_extended", prev == "iam" && s != "unknown":
+				segs[i] = "{id}"
+			case prev == "subject" || prev == "holder" || prev == "oauth2" || prev == "v2" && prev2 == "auth":
 				for _, k := range known {
 					if s == k {
 						segs[i] = "{subject}"
 					}
-				}
-				if i > 0 && (segs[i-1] == "request.jwt" || segs[i-1] == "accesstoken" && s != "introspect" && s != "introspect_extended" || segs[i-1] == "dpop" && s != "validate" || segs[i-1] == "statuslist") {
-					segs[i] = "{id}"
 				}
 			}
 		}
